@@ -49,6 +49,11 @@ def md(status, version, winners=None, event="31389771", lines=(0,)):
             "version": version, "priceLadderDefinition": {"type": "CLASSIC"}}
 
 
+def line_price(lines_, h):
+    """best back price shown on a handicap line: every line of a selection has its own book"""
+    return 2.0 + 1.0 * list(lines_).index(h)
+
+
 def build_market(rnd, mid, start):
     """-> (lines, expected list of (pt, kind, winners)) ; kinds: book | closed"""
     lines, exp = [], []
@@ -61,7 +66,7 @@ def build_market(rnd, mid, start):
     keys = [(s, h) for s in SELS for h in lines_]
     for t in range(n):
         pt += cadence if rnd.random() < 0.8 else rnd.choice([0, 1000])  # 0: identical publish times do occur
-        mc = {"id": mid, "rc": [{"id": s, **({"hc": h} if lines_ != (0,) else {}), "atb": [[2.0, 20]], "atl": [[2.2, 20]], "trd": [[2.0, 10.0 + t]]} for s, h in keys]}
+        mc = {"id": mid, "rc": [{"id": s, **({"hc": h} if lines_ != (0,) else {}), "atb": [[line_price(lines_, h), 20]], "atl": [[round(line_price(lines_, h) + 0.2, 2), 20]], "trd": [[2.0, 10.0 + t]]} for s, h in keys]}
         if t == 0:
             mc["marketDefinition"] = md("OPEN", version, lines=lines_)
         lines.append(json.dumps({"op": "mcm", "clk": "A", "pt": pt, "mc": [mc]}))
@@ -91,7 +96,8 @@ class Recorder(BaseStrategy):
         self.closed_calls = []
         self.placed = {}
         self.was_closed = set()
-        self.was_reopened = set()  # no new orders after a re-open (the closing summaries are compared with the orders placed before)
+        self.was_reopened = set()
+        self.was_reopened_early = set()  # no new orders after a re-open (the closing summaries are compared with the orders placed before)
         self.fault_at = None  # index of the callback at which a call made under real_time() raises (contained by the framework)
         self.ncb = 0
 
@@ -122,7 +128,9 @@ class Recorder(BaseStrategy):
             if len(os_) < len(keys_) and market.market_id not in self.was_reopened:
                 s, h = keys_[len(os_)]
                 tr = Trade(market.market_id, s, h, self)
-                o = tr.create_order("BACK", LimitOrder(2.2, 2.0))
+                lines_ = LINES.get(market.market_id, (0,))
+                # ordinary market: rests at 2.2; handicap lines: marketable against its OWN line's book (best back price of that line)
+                o = tr.create_order("BACK", LimitOrder(2.2 if lines_ == (0,) else line_price(lines_, h), 2.0))
                 if market.place_order(o):
                     os_.append(o)
                 else:
@@ -152,6 +160,50 @@ class Recorder(BaseStrategy):
                 self.fail("C20", "order on runner %s carries result %s, the closing book says %s" % (o.selection_id, o.runner_status, want))
             if o.market_type != market_book.market_definition.market_type:
                 self.fail("C20", "order does not carry the market's settlement terms")
+            lines_ = LINES.get(market.market_id, (0,))
+            if o.trade.strategy is not self:
+                continue
+            if lines_ != (0,) and o.status is not None and o.status.value != "Pending" and o.size_matched > 0 and abs(o.average_price_matched - line_price(lines_, o.handicap)) > 1e-6:
+                self.fail("C05", "order on selection %s line %s matched at %s, its own line's book offers %s: matched against another line's book" % (o.selection_id, o.handicap, o.average_price_matched, line_price(lines_, o.handicap)))
+            if lines_ != (0,) and o.status is not None and o.status.value == "Executable" and o.size_matched == 0 and market.market_id not in self.was_reopened_early:
+                self.fail("C05", "marketable order on selection %s line %s (limit %s = best price of its own line) was not matched: it was matched against another line's book" % (o.selection_id, o.handicap, o.order_type.price))
+
+
+class Limiter(BaseStrategy):
+    """C10: max_live_trade_count=1 - while its first trade on a runner (selection AND handicap line) is live, a second trade on the
+    same runner is refused; runners are keyed by market, selection and handicap"""
+
+    def __init__(self, failures, **kw):
+        super().__init__(**kw)
+        self.F = failures
+        self.first = {}
+        self.closed_once = set()  # a closure releases the runner accounting of the market (C20): no statement about limits after it
+
+    def check_market_book(self, market, market_book):
+        return True
+
+    def process_closed_market(self, market, market_book):
+        self.closed_once.add(market.market_id)
+
+    def process_market_book(self, market, market_book):
+        if market_book.status != "OPEN" or market.market_id in self.closed_once:
+            return
+        lines_ = LINES.get(market.market_id, (0,))
+        s, h = SELS[-1], lines_[-1]
+        if market.market_id not in self.first:
+            tr = Trade(market.market_id, s, h, self)
+            o = tr.create_order("BACK", LimitOrder(50.0, 2.0))  # far from the book: rests, the trade stays live
+            self.first[market.market_id] = o if market.place_order(o) else None
+        elif self.first[market.market_id] is not None and self.first[market.market_id] is not True:
+            o1 = self.first[market.market_id]
+            if o1.status is not None and o1.status.value == "Executable":
+                tr = Trade(market.market_id, s, h, self)
+                o2 = tr.create_order("BACK", LimitOrder(50.0, 2.0))
+                if market.place_order(o2):
+                    if len(self.F.setdefault("C10", [])) < 3:
+                        self.F["C10"].append("market %s selection %s line %s: a second trade was accepted while the first is live although max_live_trade_count=1 (live trades counted for the runner: %s)" % (
+                            market.market_id, s, h, [len(c.live_trades) for k, c in self._invested.items() if k[0] == market.market_id]))
+                self.first[market.market_id] = True
 
 
 class Cleared(LoggingControl):
@@ -178,6 +230,7 @@ def run_once(paths, failures, fault_at=None):
     fw = FlumineSimulation(client=client)
     st = Recorder(failures, market_filter={"markets": paths, "event_processing": True}, max_order_exposure=1e6, max_selection_exposure=1e6, max_live_trade_count=1000)
     st.fault_at = fault_at
+    fw.add_strategy(Limiter(failures, market_filter={"markets": paths, "event_processing": True}, max_order_exposure=1e6, max_selection_exposure=1e6, max_live_trade_count=1, name="limiter"))
     fw.add_strategy(st)
     lc = Cleared()
     fw.add_logging_control(lc)
